@@ -372,24 +372,84 @@ Definition encode_T (t : tyname) (vals : list fval) (claims : obj) : obj :=
 
 (* ---------------- well-formedness (guards of the round-trip theorem) ------- *)
 
-Fixpoint wf_actor (a : actor) : bool :=
-  match a with
-  | Actor act _ _ _ => match act with Some a' => wf_actor a' | None => true end
-  end.
-
-Definition kind_ok (k : kind) (v : fval) : bool :=
-  match k, v with
+(* scope elements without spaces (strings.Join / strings.Split are then
+   inverse); SpaceDelimitedArray only in omitempty position (as in every
+   schema); locale tags that language.Tag prints as it read them *)
+Definition wf_field (lt : string -> lres) (f : field) (v : fval) : bool :=
+  match fkind f, v with
   | KStr, VStr _ | KTime, VTime _ | KBool, VBool _ | KBoolS, VBool _
-  | KAud, VStrs _ | KStrs, VStrs _ | KLocales, VStrs _
+  | KAud, VStrs _ | KStrs, VStrs _
   | KActor, VActor _ | KAddr, VAddr _ | KMap, VMap _ => true
-  | KSDA, VStrs o => match o with Some l => forallb space_free l | None => true end
-  | KLocale, VLocale _ => true
+  | KSDA, VStrs o => fomit f && match o with Some l => forallb space_free l | None => true end
+  | KLocale, VLocale None => true
+  | KLocale, VLocale (Some c) =>
+      String.eqb c "und" ||
+      (negb (String.eqb c "") && match lt c with LOk c' => String.eqb c c' | _ => false end)
   | _, _ => false
   end.
 
-Fixpoint vals_ok (sch : list field) (vals : list fval) : bool :=
+Fixpoint vals_wf (lt : string -> lres) (sch : list field) (vals : list fval) : bool :=
   match sch, vals with
   | [], [] => true
-  | f :: s, v :: r => kind_ok (fkind f) v && vals_ok s r
+  | f :: s, v :: r => wf_field lt f v && vals_wf lt s r
   | _, _ => false
+  end.
+
+(* ---------------- what a round trip yields, written out ---------------- *)
+
+Definition dec_actor_member (j : json) : res (option actor) :=
+  match j with
+  | JNull => Ok None
+  | JObj _ => bind (dec_actor j) (fun a => Ok (Some a))
+  | _ => Err
+  end.
+
+Definition keep_or_read (s : string) (oj : option json) : res string :=
+  if String.eqb s "" then dec_opt dec_str "" oj else Ok s.
+
+(* a set member stays; an unset member reads the custom claim of its name (if
+   any); the custom map becomes the whole encoded object *)
+Fixpoint norm_actor (a : actor) : res actor :=
+  match a with
+  | Actor act iss sub cl =>
+      bind (match act with
+            | Some a' => bind (norm_actor a') (fun n => Ok (Some n))
+            | None => dec_opt dec_actor_member None (lookup "act" cl)
+            end) (fun act' =>
+      bind (keep_or_read iss (lookup "iss" cl)) (fun iss' =>
+      bind (keep_or_read sub (lookup "sub" cl)) (fun sub' =>
+      match enc_actor a with
+      | JObj d => Ok (Actor act' iss' sub' d)
+      | _ => Err
+      end)))
+  end.
+
+Definition norm_val (v : fval) : res fval :=
+  match v with
+  | VLocale (Some c) => Ok (if String.eqb c "und" then VLocale None else v)
+  | VActor (Some a) => bind (norm_actor a) (fun n => Ok (VActor (Some n)))
+  | _ => Ok v
+  end.
+
+Section Norm.
+  Variable rfc : string -> option Z.
+  Variable lt : string -> lres.
+  Variable lp : string -> lres.
+
+  Definition norm_field (claims : obj) (fv : field * fval) : res fval :=
+    let (f, v) := fv in
+    match marshal_field f v with
+    | Some _ => norm_val v
+    | None => dec_opt (dec_field rfc lt lp (fkind f)) (zero_of (fkind f)) (lookup (fname f) claims)
+    end.
+
+  Definition norm (sch : list field) (vals : list fval) (claims : obj) : res (list fval * obj) :=
+    bind (mapM (norm_field claims) (combine sch vals))
+         (fun vs => Ok (vs, encode sch vals claims)).
+End Norm.
+
+Fixpoint nodupb (l : list string) : bool :=
+  match l with
+  | [] => true
+  | x :: r => negb (string_in x r) && nodupb r
   end.
